@@ -148,8 +148,11 @@ def call_and_return(self, f, p, q, g, gv, a1, a2, newval, loops):
     self._reg.result = a1
     self._reg.pc = 1
     self._param()
-    # the second argument is the value phrase `g`, evaluated between CTX and JSR: must see the caller's g
+    # the second argument is the value phrase `g`, evaluated between CTX and JSR: must see the caller's g,
+    # also when it is written in braces ({g}: PUSH g; POP result goes through VmMath.push)
     seen_g = cs.get_variable(g)
+    self._vm_math.push(g)
+    pushed_g = self._vm_math._eval_stack.pop()
     self._reg.result = a2
     self._reg.pc = 2
     self._param()
@@ -165,7 +168,7 @@ def call_and_return(self, f, p, q, g, gv, a1, a2, newval, loops):
     self._reg.pc = 5
     self._return()                              # return from inside the loops
     return (seen_g, entered_at, inside_p, inside_q, inside_p2, self._reg.pc, cs.get_variable(g), cs.get_variable(p),
-            cs.get_variable(q), self._reg.result)
+            cs.get_variable(q), self._reg.result, pushed_g)
 '''
 for same_name in (0, 1):
     for loops in (0, 1, 2):
@@ -181,7 +184,7 @@ for same_name in (0, 1):
                     'newval': vals['newval'], 'loops': loops}
         c.setup(_setup)
         c.bounded('%d loop frames between call and return' % loops)
-        c.ensures('arguments-evaluated-in-the-callers-scope', 'result[0] == gv')
+        c.ensures('arguments-evaluated-in-the-callers-scope', 'result[0] == gv and result[10] == gv')
         c.ensures('body-entered-at-the-routine', 'result[1] == 100')
         c.ensures('parameters-bound-by-value', 'result[2] == a1 and result[3] == a2')
         c.ensures('parameter-assignment-inside-loops-is-seen', 'result[4] == newval')
